@@ -471,3 +471,33 @@ V("c03-lru-cache-method", "fault", "C03", P + "polyhedron.py",
 V("c16-module-memo", "fault", "C16", P + "polygon.py",
   "    @property\n    def perimeter(self):\n        \"\"\"float: Get the perimeter of the polygon.\"\"\"\n        return np.sum(",
   "    @property\n    def perimeter(self):\n        \"\"\"float: Get the perimeter of the polygon.\"\"\"\n        if id(self) in _PERIMETER_MEMO:\n            return _PERIMETER_MEMO[id(self)]\n        _PERIMETER_MEMO[id(self)] = self._perimeter_uncached()\n        return _PERIMETER_MEMO[id(self)]\n\n    def _perimeter_uncached(self):\n        return np.sum(", rule="Q-5")
+
+# ------------------------------------------------------------------------------------------ variants modelled on independently seeded changes
+V("seed-rescale-early-exit", "fault", "C08", P + "polygon.py", "        self._vertices *= scale\n\n    @property\n    def perimeter",
+  "        if abs(scale - 1) < 1e-9:\n            return\n        self._vertices *= scale\n\n    @property\n    def perimeter", rule=None)
+V("seed-inertia-signed-mass", "fault", "C04", P + "polygon.py", "rotate_order2_tensor(mat.T, inertia_tensor), self.area", "rotate_order2_tensor(mat.T, inertia_tensor), self.signed_area", rule="PAR")
+V("seed-centroid-row-vector", "fault", "C04", P + "polygon.py", "centroid = rotation.T.dot(in_plane_centroid)", "centroid = np.dot(in_plane_centroid, rotation.T)", rule="FRAME-1")
+V("seed-rw-centroid-row-vector-ok", "rewrite", "C04", P + "polygon.py", "centroid = rotation.T.dot(in_plane_centroid)", "centroid = np.dot(in_plane_centroid, rotation)")
+V("seed-eig-sign-convention-after-det", "fault", "C03", P + "polyhedron.py",
+  "            principal_axes[:, 0] *= -1\n        self._vertices = np.dot(self._vertices, principal_axes)",
+  "            principal_axes[:, 0] *= -1\n        principal_axes *= np.sign(principal_axes[0])\n        self._vertices = np.dot(self._vertices, principal_axes)", rule="ROT-1")
+V("seed-tiebreak-copy-paste", "fault", "C06", P + "polygon.py", "vertex_sign_p2[zeros_p2] = np.sign(diff_y_p2)[zeros_p2]", "vertex_sign_p2[zeros_p2] = np.sign(diff_y_p1)[zeros_p2]", rule="COPY-1")
+V("seed-points-rotation-block", "fault", "C06", P + "polygon.py", "        points = np.dot(points, rotation.T)\n", "        points = np.dot(points[:, :2], rotation[:2, :2].T)\n", rule="IN-7")
+V("seed-winding-copy-paste-3d", "fault", "C05", P + "polyhedron.py", "np.sign(diff_y_v2), np.sign(diff_z_v2))", "np.sign(diff_y_v2), np.sign(diff_z_v1))", rule="COPY-1")
+V("seed-cross-term-swapped", "fault", "C05", P + "polyhedron.py", "term_1 = diff_i[2] * diff_j[0] - diff_i[0] * diff_j[2]", "term_1 = diff_i[0] * diff_j[2] - diff_i[2] * diff_j[0]", rule="COPY-2")
+V("seed-zero-q-exact", "fault", "C12", P + "polygon.py", "zero_q = np.isclose(q_sqs, 0)", "zero_q = q_sqs == 0", rule="FF-5")
+V("seed-near-tie-tolerance", "fault", "C10", P + "ellipsoid.py", "        if a > c:\n", "        if not np.isclose(a, c):\n", rule="BR-1")
+V("seed-winding-leading-corner", "fault", "C12", P + "polygon.py", "        ) * np.sign(self.signed_area)\n        form_factor *= density",
+  "        ) * np.sign(np.dot(np.cross(edges[0], edges[1]), self.normal))\n        form_factor *= density", rule="FF-2")
+V("seed-scatter-last-wins", "fault", "C05", P + "convex_spheropolyhedron.py",
+  "        for point_id, face_id in zip(*np.where(point_faces_to_check)):\n            if not in_sphero_shape[point_id]:\n                in_sphero_shape[point_id] = check_face(point_id, face_id)",
+  "        point_ids, face_ids = np.where(point_faces_to_check)\n        in_sphero_shape[point_ids] = [check_face(p_, f_) for p_, f_ in zip(point_ids, face_ids)]", rule="IN-2")
+V("seed-face-centroid-vertex-mean", "fault", "C01", P + "convex_polyhedron.py",
+  "                np.sum(\n                    simplex_centroids[face] * self._simplex_areas[face][:, None],\n                    axis=0,\n                )\n                / np.sum(self._simplex_areas[face]),  # Rescale by area of face",
+  "                np.mean(simplex_centroids[face], axis=0),", rule="FC-1")
+V("seed-face-area-shortcut", "fault", "C02", P + "polyhedron.py",
+  "            poly = ConvexPolygon(self.vertices[face], planar_tolerance=1e-4)\n            areas[i] = poly.area",
+  "            vs_ = self.vertices[face]\n            if len(vs_) <= 4:\n                areas[i] = np.linalg.norm(np.cross(vs_[1] - vs_[0], vs_[-1] - vs_[0])) * (len(vs_) - 2) / 2\n            else:\n                areas[i] = ConvexPolygon(vs_, planar_tolerance=1e-4).area", rule="AREA-1")
+V("seed-core-cache", "fault", "C03", P + "convex_spheropolyhedron.py",
+  "    @property\n    def mean_curvature(self):", "    @__import__('functools').cached_property\n    def _core_curvature(self):\n        return self.polyhedron.mean_curvature\n\n    @property\n    def mean_curvature(self):", rule="COH-5")
+V("seed-rw-face-area-float", "rewrite", "C02", P + "polyhedron.py", "            areas[i] = poly.area", "            areas[i] = float(poly.area)")
